@@ -125,8 +125,7 @@ func c06Merge(c *Ctx, sx *symx.Ctx) {
 		switch x := in.(type) {
 		case *ssa.Call:
 			n := ssau.CallName(x)
-			readOnly := map[string]bool{"slices.Contains": true, "slices.ContainsFunc": true, "slices.Index": true, "slices.IndexFunc": true, "slices.Equal": true, "slices.Max": true, "slices.Min": true, "slices.Clone": true, "slices.Values": true, "slices.All": true, "sort.SearchStrings": true, "sort.Search": true, "sort.StringsAreSorted": true, "sort.IsSorted": true}
-			if (strings.HasPrefix(n, "sort.") || strings.HasPrefix(n, "slices.")) && !readOnly[n] {
+			if (strings.HasPrefix(n, "sort.") || strings.HasPrefix(n, "slices.")) && !readOnlySliceFunc[n] {
 				if len(x.Common().Args) > 0 {
 					if ok, _ := prefixExt(f, ssau.Strip(x.Common().Args[0]), terms, map[ssa.Value]bool{}); ok {
 						r.Bad("O-1", fk+"#reorders-terms", c.P.Pos(x.Pos()), "the term list is reordered by "+n+": the user's first four words are no longer the first four terms, which is what the term cap protects")
